@@ -133,11 +133,11 @@ def selftest(ctx, uni, vecs, reg):
     open(rf, "w").write(json.dumps(r0) + "\n" + json.dumps(r1) + "\n")
     sc.run_driver(ctx, "mux", [uni, rf, of, vf])
     got = verif.read_ndjson(of)
-    want = 2 * 3 + 2 * 1     # two namespaces each
-    bad_orig = [m for m in got if m["vector"] in (base, r0)]
-    if bad_orig and not ctx.violations:
+    vec_lines = {m["line"] for m in got if m["kind"] == "vector"}
+    reg_lines = {m["line"] for m in got if m["kind"] == "reg"}
+    if (1 in vec_lines or 1 in reg_lines) and not ctx.violations:
         raise verif.Undecided("binding self-test: an unchanged vector was rejected")
-    n = len([m for m in got if m["vector"] not in (base, r0)])
-    if n != want:
-        raise verif.Undecided("binding self-test: %d of %d corrupted expectations were rejected" % (n, want))
-    return n
+    missed = [l for l in (2, 3, 4) if l not in vec_lines] + ["reg"] * (2 not in reg_lines)
+    if missed:
+        raise verif.Undecided("binding self-test: corrupted expectations ACCEPTED: %s" % missed)
+    return 4
